@@ -1,7 +1,84 @@
+import MythVerif.Model.Time
 import Driver.Util
-/-! `drv_time`: stub, to be filled in -/
+/-! `drv_time`: the C20 model (`MythVerif.Time`) behind the line protocol of harness/time_unit.c.
+
+    add AS AN BS BN | gt AS AN BS BN
+    nanosleep S N … | r0s r0n r1s r1n …          usleep U … | …        sleep S … | …
+    timedlock S N … | readings | outcomes        timedjoin S N … | readings | outcomes
+  (`outcomes`: a word over b/g, attempt k succeeds iff its k-th letter is g; words containing `=`
+  are options of the harness and are ignored).  Clock stream: the readings, then
+  (INT64_MAX, 999999999) for ever; the run is cut (`ret=none`) after `len + 3` readings. -/
 namespace Driver.Time
+open MythVerif.Time
+
+def far : Ts := { sec := tMax, nsec := 999999999 }
+
+def parseReadings (ws : List String) : Option (List Ts) :=
+  match ws with
+  | [] => some []
+  | [_] => none
+  | a :: b :: rest =>
+    match a.toInt?, b.toInt?, parseReadings rest with
+    | some s, some n, some l => some ({ sec := s, nsec := n } :: l)
+    | _, _, _ => none
+
+def clockOf (l : List Ts) : Clock := fun i => l.getD i far
+
+def showEv : MythVerif.Time.Ev → String
+  | .clock _ => "C"
+  | .yield => "Y"
+  | .attempt true => "g"
+  | .attempt false => "b"
+
+def showRes : Option (Rc × List MythVerif.Time.Ev) → String
+  | none => "ret=none"
+  | some (r, tr) => s!"ret={r.toNat} trace={String.join (tr.map showEv)}"
+
+def outcomes (w : String) : Nat → Bool :=
+  let l := w.toList
+  fun k => l.getD k 'b' == 'g'
+
+def handle (line : String) : String :=
+  let parts := line.splitOn "|"
+  let head := (Driver.words (parts.getD 0 "")).filter (fun w => !(w.contains '='))
+  let rd := parseReadings (Driver.words (parts.getD 1 ""))
+  let oc := String.join (Driver.words (parts.getD 2 ""))
+  match head, rd with
+  | ["add", a, b, c, d], _ =>
+    match a.toInt?, b.toInt?, c.toInt?, d.toInt? with
+    | some a, some b, some c, some d => let r := add ⟨a, b⟩ ⟨c, d⟩; s!"{r.sec} {r.nsec}"
+    | _, _, _, _ => "bad-op"
+  | ["gt", a, b, c, d], _ =>
+    match a.toInt?, b.toInt?, c.toInt?, d.toInt? with
+    | some a, some b, some c, some d => if gt ⟨a, b⟩ ⟨c, d⟩ then "1" else "0"
+    | _, _, _, _ => "bad-op"
+  | ["nanosleep", s, n], some l =>
+    match s.toInt?, n.toInt? with
+    | some s, some n => showRes (nanosleep ⟨s, n⟩ (clockOf l) (l.length + 2))
+    | _, _ => "bad-op"
+  | ["usleep", u], some l =>
+    match u.toNat? with
+    | some u => showRes (usleep (u % 4294967296) (clockOf l) (l.length + 2))
+    | none => "bad-op"
+  | ["sleep", s], some l =>
+    match s.toNat? with
+    | some s => showRes (sleep (s % 4294967296) (clockOf l) (l.length + 2))
+    | none => "bad-op"
+  | ["timedlock", s, n], some l =>
+    match s.toInt?, n.toInt? with
+    | some s, some n => showRes (timedlock ⟨s, n⟩ (clockOf l) (outcomes oc) (l.length + 3))
+    | _, _ => "bad-op"
+  | ["timedjoin", s, n], some l =>
+    match s.toInt?, n.toInt? with
+    | some s, some n => showRes (timedjoin ⟨s, n⟩ (clockOf l) (outcomes oc) (l.length + 3))
+    | _, _ => "bad-op"
+  | _, _ => "bad-op"
+
 def run (_args : List String) : IO UInt32 := do
-  IO.eprintln "drv_time: not implemented"
-  return 2
+  let stdin ← IO.getStdin
+  let _ ← Driver.forLines stdin () fun _ line => do
+    IO.println (handle line)
+    pure ()
+  return 0
+
 end Driver.Time
